@@ -219,7 +219,7 @@ model of C04 (`Import.importProgram`, tied to `read_qasm` by C04's correspondenc
 with the same register sizes, and the gate list it returns has — under `denX`, which is `denG` on IR
 gates — the unitary of the original circuit up to ONE global phase, on every register size.
 Circuits that need an emitted definition (`SWAP SQRTNOT CS CT CRX CRY`) are re-imported as user gates:
-see `roundtrip_den_defs_partial`. -/
+see `roundtrip_den`. -/
 theorem roundtrip_den_partial (c : Circuit) (hc : GoodCircuit c.out) (hN : 0 < c.N)
     (hb : addedNames c.ops Gen.gateNameToQasm = []) :
     ∃ lines P iops A B, exportCircuit c = .ok lines ∧ parseLines lines = some P ∧
@@ -250,31 +250,27 @@ example : ∃ c : Circuit, GoodCircuit c.out ∧ 0 < c.N ∧ addedNames c.ops Ge
       exact ⟨_, rfl, ⟨by decide, by decide, by decide, by decide, by decide, by decide, by decide⟩⟩,
     by decide, by decide⟩
 
-/-- **Export, then import: the same unitary — circuits WITH emitted definitions (partial: hypothesis
-`hplain`).**  For every circuit of the exportable class (any register size, any length; `SWAP`, `SQRTNOT`,
-`CS`, `CT`, `CRX`, `CRY` included — for them the exporter emits `gate` definitions and the importer builds
-user gates `swap`, `crx(θ)`, … from these definitions): the exported text parses to a program `P` of C04's
-class W₁; the importer model accepts `P` with the same register sizes; and the operation list it returns —
-library gates and user gates — has, under `Import.denIOps` (`denX` for library gates; for a user gate the
-`denX` of the temporary circuit `_custom_gate` builds, placed on the gate's targets), the unitary of the
-original circuit up to ONE global phase.  Proof: `export_den` ∘ C04 `import_den_w1_partial`
-(`programOf_W1`: the exported program is in W₁, the emitted definitions are accepted by the standard).
-`hN`: at least one qubit (or a tree that accepts empty registers).  `hplain`: the printed parameter texts
-consist of the characters `0-9 . e E + -` and do not start with `-` (true of everything Python prints for a
-finite number; needed so that the importer's cache key `crx(<text>)` determines the parameter). -/
-theorem roundtrip_den_defs_partial (c : Circuit) (hc : GoodCircuit c.out)
-    (hN : Gen.emptyRegOk = true ∨ 0 < c.N)
-    (hplain : ∀ g, Op.gate g ∈ c.out.ops → ∀ x ∈ argNums g.arg, PlainNum x.txt) :
+/-- **Export, then import: the same unitary — every circuit of the class, emitted definitions included.**
+For every circuit of the exportable class (any register size, any length; `SWAP`, `SQRTNOT`, `CS`, `CT`, `CRX`,
+`CRY` included — for them the exporter emits `gate` definitions and the importer builds user gates `swap`,
+`crx(θ)`, … from these definitions): the exported text parses to a program `P` of C04's class W₁; the
+importer model accepts `P` with the same register sizes; and the operation list it returns — library gates
+and user gates — has, under `Import.denIOps` (`denX` for library gates; for a user gate the `denX` of the
+temporary circuit `_custom_gate` builds, placed on the gate's targets), the unitary of the original circuit up
+to ONE global phase.  Proof: `export_den` ∘ C04 `import_den_w1_partial` (`programOf_W1`: the exported program
+is in W₁ — the emitted definitions are accepted by the standard, and the importer's cache keys `crx(<text>)`
+determine the parameter because rendering numeric tokens is injective).  `hN`: at least one qubit (or a tree
+that accepts empty registers). -/
+theorem roundtrip_den (c : Circuit) (hc : GoodCircuit c.out) (hN : Gen.emptyRegOk = true ∨ 0 < c.N) :
     ∃ lines P iops A B, exportCircuit c = .ok lines ∧ parseLines lines = some P ∧
       Import.importProgram P = .ok (c.N, (cregsOf c.numCbits).total, iops) ∧
       denX c.N (c.ops.filterMap xOfOp) = some A ∧ Import.denIOps c.N iops = some B ∧ PhaseEqN B A := by
-  obtain ⟨lines, P, iops, A, B, h1, h2, h3, h4, h5, h6⟩ := roundtrip_den_defs c.out hc hN hplain
+  obtain ⟨lines, P, iops, A, B, h1, h2, h3, h4, h5, h6⟩ := roundtrip_den_defs c.out hc hN
   exact ⟨lines, P, iops, A, B, h1, h2, h3, by rw [← filterMap_xOfOp_out]; exact h4, h5, h6⟩
 
-/-- the hypotheses of `roundtrip_den_defs_partial` are satisfiable: every gate with an emitted definition,
-a negative and an exponent-form parameter -/
+/-- the hypotheses of `roundtrip_den` are satisfiable: every gate with an emitted definition, a negative and an
+exponent-form parameter, a gate used twice -/
 example : ∃ c : Circuit, GoodCircuit c ∧ 0 < c.N ∧
-    (∀ g, Op.gate g ∈ c.ops → ∀ x ∈ argNums g.arg, PlainNum x.txt) ∧
     addedNames c.ops Gen.gateNameToQasm = [cs!"SWAP", cs!"CRX", cs!"SQRTNOT", cs!"CS", cs!"CT", cs!"CRY"] :=
   ⟨⟨3, 0, [
     .gate ⟨cs!"SWAP", some [0, 2], none, .none, none⟩,
@@ -289,15 +285,7 @@ example : ∃ c : Circuit, GoodCircuit c ∧ 0 < c.N ∧
     simp only [List.mem_cons, List.not_mem_nil, or_false] at hop
     rcases hop with rfl | rfl | rfl | rfl | rfl | rfl | rfl | rfl <;>
       exact ⟨_, rfl, ⟨by decide, by decide, by decide, by decide, by decide, by decide, by decide⟩⟩,
-    by decide, by
-    intro g hg x hx
-    simp only [List.mem_cons, List.not_mem_nil, or_false, Op.gate.injEq] at hg
-    rcases hg with rfl | rfl | rfl | rfl | rfl | rfl | rfl | rfl <;>
-      simp only [argNums, List.mem_singleton, List.not_mem_nil] at hx <;>
-      first
-        | exact absurd hx (by simp)
-        | (subst hx; exact ⟨by decide, by decide⟩),
-    by decide⟩
+    by decide, by decide⟩
 
 /-! ### Counter-examples to the unrestricted statement (recorded findings) -/
 
